@@ -49,7 +49,7 @@ void scen_monitor(hx::Desc& d) {
 }
 
 void scen_runtime(hx::Desc& d) {
-    int variant = (int)sim::draw(6, "variant");
+    int variant = (int)sim::draw(7, "variant");
     static const int ptsv[] = {0, 2, 10};
     int pts = sim::draw_of(ptsv, "points");
     switch (variant) {
@@ -113,6 +113,41 @@ void scen_runtime(hx::Desc& d) {
         SIM_CHECK(ran == callers, "oracle:wait-incomplete", "execute() calls ran %d of %d functors", ran, callers);
         break;
     }
+    case 6: {   // arenas of different priorities competing under a small worker limit: a "busy" arena whose owner has
+                // spawned but not yet waited-for work (plain demand) polls, without any TBB wait, for the completion of
+                // tasks enqueued into other arenas by threads that exit; the enqueued tasks must run whatever the
+                // priorities are (mandatory worker when the limit leaves no worker at all)
+        static const int limits[] = {1, 1, 2, 3, 0};
+        int limit = sim::draw_of(limits, "limit");
+        int ntargets = (int)sim::draw_range(1, 2, "targets"), per = (int)sim::draw_range(1, 3, "per_arena"), nspawn = (int)sim::draw_range(1, 3, "spawned");
+        static const tbb::task_arena::priority pr[] = {tbb::task_arena::priority::low, tbb::task_arena::priority::normal, tbb::task_arena::priority::high};
+        int bprio = (int)sim::draw(3, "busy_prio"), bmc = (int)sim::draw_range(1, 3, "busy_maxc");
+        std::unique_ptr<tbb::global_control> gc;
+        if (limit) gc.reset(new tbb::global_control(tbb::global_control::max_allowed_parallelism, (size_t)limit));
+        tbb::task_arena busy(bmc, 1, pr[bprio]);
+        std::vector<tbb::task_arena*> tg_ar; std::string s;
+        for (int i = 0; i < ntargets; ++i) { int mc = (int)sim::draw_range(1, 3, "maxc"), p = (int)sim::draw(3, "prio"); tg_ar.push_back(new tbb::task_arena(mc, mc > 1 ? 1u : 0u, pr[p])); s += hx::fmt(" (max=%d,prio=%d)", mc, p); }
+        bool enq_from_busy = sim::draw_bool("enqueue_from_busy");
+        d.add(hx::fmt("priorities under limit %d: busy arena(max=%d,prio=%d) with %d un-waited spawned task(s) polls for %d task(s) enqueued into each of:%s%s", limit, bmc, bprio, nspawn, per, s.c_str(),
+                      enq_from_busy ? " (enqueued by the busy thread itself)" : " (enqueued by threads that exit)")); d.publish();
+        int total = ntargets * per, done = 0, spawned_ran = 0;
+        auto enqueue_all = [&](int i) { for (int k = 0; k < per; ++k) { tg_ar[(size_t)i]->enqueue([&, pts] { for (int j = 0; j < pts; ++j) sim::upoint(); ++done; sim::changed(); }); sim::upoint(); } };
+        std::vector<std::function<void()>> fns;
+        fns.push_back([&] {
+            busy.execute([&] {
+                tbb::task_group g;
+                for (int k = 0; k < nspawn; ++k) g.run([&] { for (int j = 0; j < pts; ++j) sim::upoint(); ++spawned_ran; });
+                if (enq_from_busy) for (int i = 0; i < ntargets; ++i) enqueue_all(i);
+                while (done < total) sim::point(sim::K_YIELD, nullptr);     // not a TBB wait: the thread never helps the target arenas
+                g.wait();
+            });
+        });
+        if (!enq_from_busy) for (int i = 0; i < ntargets; ++i) fns.push_back([&, i] { for (int j = 0; j < i * 7; ++j) sim::upoint(); enqueue_all(i); });
+        hx::run_fibers(fns);
+        SIM_CHECK(done == total && spawned_ran == nspawn, "oracle:wait-incomplete", "%d of %d enqueued and %d of %d spawned tasks ran", done, total, spawned_ran, nspawn);
+        for (auto* a : tg_ar) delete a;
+        break;
+    }
     case 3: {   // task_group whose last task finishes on another thread while the owner is about to sleep
         int n = (int)sim::draw_range(1, 5, "n");
         d.add(hx::fmt("task_group wait with %d tasks of %d points", n, pts * 8)); d.publish();
@@ -145,5 +180,8 @@ SIM_SCENARIO(scen_c02, "c02", "C02", 4000000, 15000) {
     hx::Desc d;
     hx::draw_runtime_config(d, 8, /*allow_warm=*/false);   // cold arenas are the point of these scenarios; variant 4 warms by itself
     sim::g_cfg.tso = sim::draw_bool("tso");
+    sim::set_allotment_observer([](int soft, int mand, int total, int n, const int* level, const int* minw, const int* maxw, const int* allot) {
+        hx::check_mandatory_allotment(soft, mand, total, n, level, minw, maxw, allot); });
     if (sim::draw(3, "layer") == 0) scen_monitor(d); else scen_runtime(d);
+    sim::set_allotment_observer(nullptr);
 }
